@@ -470,3 +470,13 @@ pub assume_specification<'a, 'b, B: ?Sized + ToOwned>[ <Cow<'a, B> as core::ops:
 
 pub broadcast axiom fn axiom_cow_str_deref<'a, 'b>(s: &'b Cow<'a, str>)
     ensures (#[trigger] cow_deref_spec::<str>(s))@ == s@;
+
+// ---- A-retain: Vec::retain keeps exactly the elements the predicate accepts (order is kept by
+//      the real function; the contract only states membership, which is all the proofs use)
+pub assume_specification<T, A: core::alloc::Allocator, F: FnMut(&T) -> bool>[ Vec::<T, A>::retain::<F> ](v: &mut Vec<T, A>, f: F)
+    requires
+        forall|x: &T| #[trigger] f.requires((x,)),
+    ensures
+        final(v)@.len() <= old(v)@.len(),
+        forall|k: int| 0 <= k < final(v)@.len() ==> old(v)@.contains(#[trigger] final(v)@[k]) && f.ensures((&final(v)@[k],), true),
+        forall|k: int| 0 <= k < old(v)@.len() && !f.ensures((&old(v)@[k],), false) ==> final(v)@.contains(#[trigger] old(v)@[k]);
